@@ -182,6 +182,7 @@ func GenPeerWorld(r *rand.Rand, tag string) (*PeerWorld, error) {
 	pl.Comments = r.Intn(3)
 	pl.EarlyFQ = r.Intn(4) == 0
 	pl.DupInBlock = r.Intn(6) == 0
+	pl.HoldFirst = pl.Seed%3 == 0
 	pl.DupPos = int(pl.Seed % 4) // 0 = the duplicate comes last, else at that index (derived, no extra draw)
 	pl.MaxPerBlock = []int{5, 5, 5, 1, 3}[r.Intn(5)]
 	if r.Intn(4) == 0 {
